@@ -3807,6 +3807,7 @@ ZBUFFv05_DCtx* ZBUFFv05_createDCtx(void)
     if (zbc==NULL) return NULL;
     memset(zbc, 0, sizeof(*zbc));
     zbc->zc = ZSTDv05_createDCtx();
+    if (zbc->zc == NULL) { free(zbc); return NULL; }
     zbc->stage = ZBUFFv05ds_init;
     return zbc;
 }
